@@ -731,6 +731,13 @@ pub fn generate(prop: &str, thorough: bool, rng: &mut Rng) -> Case {
             // at a prefix of the writes of that second life, and the store is recovered once more
             if rng.chance(1, 2) {
                 cfg.insert("second_life".into(), 1);
+                // the second life writes to a device that may come back from the crash with every block in use: only
+                // configurations the engine accepts without warning (flushers + clean-block threshold <= blocks / 2)
+                // are guaranteed to make progress then (C09's stated bound)
+                let need = 2 * (cfg["flushers"] + cfg["clean_thr"]);
+                if cfg["blocks"] < need {
+                    cfg.insert("blocks".into(), need);
+                }
                 let mut ops2 = vec![];
                 for _ in 0..1 + rng.below(5) {
                     let k = rng.below(keys as usize) as u64;
